@@ -343,14 +343,15 @@ def gen_script_rng(R):
     return ",".join(str(R.randrange(0, 50)) for _ in range(n)) if n else "-"
 
 
-def gen_actions(R, n_agents, n_models):
+def gen_actions(R, n_agents, n_models, live=None):
     acts = []
     for _ in range(R.choice([0, 1, 1, 1, 2, 3])):
         k = R.random()
         if k < 0.25:
             acts.append("rmself")
         elif k < 0.65:
-            acts.append(f"rm {R.randrange(0, n_agents + 3)}")
+            # mostly agents that exist now (earlier or later members of the sets being activated)
+            acts.append(f"rm {R.choice(live) if live and R.random() < 0.8 else R.randrange(0, n_agents + 3)}")
         elif k < 0.85:
             acts.append(f"create {R.randrange(n_models)} {R.randrange(NTYPES)} {R.choice([0, 1, 1, 2])} {R.choice([0, 0, 1])}")
         else:
@@ -443,7 +444,8 @@ def gen_world(R, flavor="c04", size=None):
             elif op == "script":
                 for _ in range(R.choice([1, 2, 3])):
                     a = an_agent() if R.random() < 0.85 else na + R.randrange(0, 3)
-                    emit(f"script {a} " + gen_actions(R, na, nm))
+                    live = [i for i, r in enumerate(impl.wr) if r() is not None]
+                    emit(f"script {a} " + gen_actions(R, na, nm, live))
             else:
                 kind = R.choice(["do", "do", "shuffledo", "shuffledo", "map", "gdo", "gmap"])
                 how = R.choice(["str", "fn"])
@@ -455,6 +457,34 @@ def gen_world(R, flavor="c04", size=None):
     finally:
         impl.close()
     return core.Scenario(lines, {})
+
+
+def exhaustive_activation(max_n, kinds, all_held_patterns, n4=False):
+    """every script family over n agents in which each agent, on its turn, does nothing / removes itself /
+    removes agent j (any j: earlier, later, itself) / creates an agent — for every pattern of which agents the
+    program holds, and each activation kind"""
+    import itertools
+
+    def scen(n, combo, held, kind):
+        lines = ["scenario world", "model 3,1,4,1,5,9,2,6"]
+        lines += [f"create 0 {i % 2} {h} 0" for i, h in enumerate(held)]
+        lines += [f"script {i} {a}" for i, a in enumerate(combo) if a]
+        lines.append(f"{kind} all:0 1 str" if not kind.startswith("g") else f"{kind} all:0 ty 1 str")
+        return core.Scenario(lines, {"exhaustive": True})
+
+    for n in range(1, max_n + 1):
+        acts = ["", "rmself"] + [f"rm {j}" for j in range(n)] + ["create 0 0 1 0"]
+        helds = list(itertools.product([0, 1], repeat=n)) if all_held_patterns else [(0,) * n, (1,) * n]
+        for combo in itertools.product(acts, repeat=n):
+            for held in helds:
+                for kind in kinds:
+                    yield scen(n, combo, held, kind)
+    if n4:
+        n = 4
+        acts = ["", "rmself"] + [f"rm {j}" for j in range(n)] + ["create 0 0 1 0"]
+        for combo in itertools.product(acts, repeat=n):
+            for held in [(0,) * n, (0, 1, 0, 1)]:
+                yield scen(n, combo, held, "do")
 
 
 # --------------------------------------------------------------------------------------------
